@@ -35,6 +35,7 @@ POOL = [
     "SELECT a FROM t ORDER BY a", "SELECT a FROM t ORDER BY a DESC", "SELECT a FROM t LIMIT 1", "SELECT DISTINCT a FROM t",
     "SELECT a FROM t GROUP BY a", "SELECT SUM(a) FROM t", "SELECT a FROM t UNION SELECT a FROM u", "WITH c AS (SELECT 1) SELECT * FROM c",
     "CAST(a AS INT)", "CAST(a AS TEXT)", "CASE WHEN a THEN 1 END", "a IN (1, 2)", "a BETWEEN 1 AND 2", "a IS NULL", "x.y", "x.y.z",
+    "TRY_CAST(a AS INT)", "HEX(a)", "LOWER(HEX(a))", "SELECT EXPLODE(xs)", "SELECT POSEXPLODE(xs)", "JSON_EXTRACT(a, '$.b')", "JSON_EXTRACT_SCALAR(a, '$.b')",
     "INSERT INTO t VALUES (1)", "DELETE FROM t", "UPDATE t SET a = 1", "CREATE TABLE t (a INT)", "DROP TABLE t",
 ]
 
@@ -62,6 +63,25 @@ def edit_menu(tree: exp.Expr):
             out.append(("swap_operands", p, swap))
         if p and isinstance(n, (exp.Column, exp.Literal, exp.Binary, exp.Func)) and not isinstance(n.parent, (exp.Alias,)) :
             out.append(("wrap", p, lambda t, p=p: node_at(t, p).replace(exp.Anonymous(this="W", expressions=[node_at(t, p).copy()]))))
+        for C in related_classes(type(n)):
+            # the same args under a sub- or superclass (CAST -> TRY_CAST, HEX -> LOWER_HEX, EXPLODE -> POSEXPLODE ...): the two
+            # nodes are different kinds of node although one class derives from the other
+            if set(k for k, v in n.args.items() if v is not None and v != []) <= set(C.arg_types) and all(
+                    n.args.get(k) is not None for k, req in C.arg_types.items() if req):
+                def swap_class(t, p=p, C=C):
+                    old = node_at(t, p)
+                    new = C(**{k: (v.copy() if isinstance(v, exp.Expr) else [x.copy() if isinstance(x, exp.Expr) else x for x in v] if isinstance(v, list) else v)
+                               for k, v in old.args.items() if v is not None})
+                    if old.parent is None:
+                        raise ValueError("root")
+                    old.replace(new)
+                try:   # only a swap that yields a well-formed (renderable) tree is an edit
+                    probe = tree.copy()
+                    swap_class(probe)
+                    probe.sql()
+                except Exception:
+                    continue
+                out.append((f"class_{type(n).__name__}_to_{C.__name__}", p, swap_class)) if p else None
         if p and isinstance(n, (exp.Paren, exp.Not, exp.Neg)) :
             out.append(("unwrap", p, lambda t, p=p: node_at(t, p).replace(node_at(t, p).this.copy())))
         for k, v in n.args.items():
@@ -78,6 +98,21 @@ def edit_menu(tree: exp.Expr):
                             node_at(t, p).append(k, x)
                         out.append(("move_item", p + ((k, i),), move))
     return out
+
+
+_REL: dict = {}
+
+
+def related_classes(cls):
+    """Instantiable Expression classes that are a proper sub- or superclass of cls (excluding the abstract bases)."""
+    if cls not in _REL:
+        abstract = {exp.Expression, exp.Expr, exp.Func, exp.AggFunc, exp.Binary, exp.Unary, exp.Condition, exp.Predicate, exp.Query, exp.SetOperation,
+                    exp.DerivedTable, exp.SubqueryPredicate, exp.Connector, exp.Property, exp.ColumnConstraintKind, exp.TimeUnit, exp.IntervalOp, exp.DML, exp.DDL}
+        abstract = {c for c in abstract if isinstance(c, type)}
+        allc = [c for c in vars(exp).values() if isinstance(c, type) and issubclass(c, exp.Expression)]
+        rel = [c for c in allc if c is not cls and c not in abstract and cls not in abstract and (issubclass(c, cls) or issubclass(cls, c))]
+        _REL[cls] = sorted(set(rel), key=lambda c: c.__name__)[:4]
+    return _REL[cls]
 
 
 def apply_edits(source: exp.Expr, seq):
